@@ -93,7 +93,7 @@ pub fn run_split(args: &[Sx]) -> Sx {
                 || BedGraph::from_bed(&g, 1.5f64).split_by_len(b).map(|x| pr(&x)).ne(sp.iter().map(pr)) { emit(a("ORACLE-FAIL:split_by_len-depends-on-record-type/strand")); break; }
             if r6.rsplit_by_len(b).map(|x| pr(&x)).ne(rsp.iter().map(pr)) || rn.rsplit_by_len(b).map(|x| pr(&x)).ne(rsp.iter().map(pr)) { emit(a("ORACLE-FAIL:rsplit_by_len-depends-on-record-type/strand")); break; }
         }
-        // the other ways of walking the same iterator: nth, skip, step_by, count, last, size_hint
+        // the other ways of walking the same iterator: nth, skip, step_by, count, last
         let idx: Vec<usize> = vec![0, 1, 2, 3, sp.len().saturating_sub(1), sp.len(), sp.len() + 1, 7, 1 << 20, 1 << 33, usize::MAX / 2, usize::MAX];
         for &n in idx.iter() {
             if g.split_by_len(b).nth(n).map(|x| pr(&x)) != sp.get(n).map(pr) { emit(a("ORACLE-FAIL:split_by_len.nth")); break; }
@@ -109,10 +109,6 @@ pub fn run_split(args: &[Sx]) -> Sx {
         }
         if g.split_by_len(b).count() != sp.len() || g.rsplit_by_len(b).count() != rsp.len() { emit(a("ORACLE-FAIL:split.count")); }
         if g.split_by_len(b).last().map(|x| pr(&x)) != sp.last().map(pr) || g.rsplit_by_len(b).last().map(|x| pr(&x)) != rsp.last().map(pr) { emit(a("ORACLE-FAIL:split.last")); }
-        let (lo, hi) = g.split_by_len(b).size_hint();
-        if lo > sp.len() || hi.map_or(false, |h| h < sp.len()) { emit(a("ORACLE-FAIL:split.size_hint")); }
-        let (lo, hi) = g.rsplit_by_len(b).size_hint();
-        if lo > rsp.len() || hi.map_or(false, |h| h < rsp.len()) { emit(a("ORACLE-FAIL:rsplit.size_hint")); }
         // a partly consumed iterator, then drained by internal iteration (fold)
         let mut it = g.split_by_len(b); let first = it.next().map(|x| pr(&x));
         let rest: Vec<(u64, u64)> = it.fold(Vec::new(), |mut v, x| { v.push(pr(&x)); v });
